@@ -208,6 +208,9 @@ func runCrossFile(p *Prog, r *Report) {
 		}
 		info := fn.Info()
 		ast.Inspect(fn.Body, func(x ast.Node) bool {
+			if lit, isLit := x.(*ast.FuncLit); isLit && lit != fn.Lit {
+				return false // judged as its own function
+			}
 			call, ok := x.(*ast.CallExpr)
 			if !ok {
 				return true
@@ -340,6 +343,9 @@ func runCrossFile(p *Prog, r *Report) {
 			return s2.X
 		}
 		ast.Inspect(fn.Body, func(x ast.Node) bool {
+			if lit, isLit := x.(*ast.FuncLit); isLit && lit != fn.Lit {
+				return false // judged as its own function
+			}
 			be, ok := x.(*ast.BinaryExpr)
 			if !ok {
 				return true
